@@ -48,6 +48,18 @@ func (f *Frame) builtin(x *ssa.Call, b *ssa.Builtin, c *ssa.CallCommon, at strin
 	panic(unsupported{"builtin " + b.Name()})
 }
 
+// srcSliceType: the slice type whose class holds the elements of an append/copy
+// source; looks through conversions that exist only to pass the source operand.
+func srcSliceType(v ssa.Value) types.Type {
+	for {
+		ct, ok := v.(*ssa.ChangeType)
+		if !ok || !isSliceT(ct.X.Type()) || !onlyReadAsSource(ct) {
+			return v.Type()
+		}
+		v = ct.X
+	}
+}
+
 // constLenOne: the value is a slice over a fresh one-element array (SSA's
 // varargs packaging); returns the element's address instruction when so.
 func singleElemSlice(v ssa.Value) bool {
@@ -82,7 +94,7 @@ func (f *Frame) appendOp(x *ssa.Call, c *ssa.CallCommon, at string, st *State) *
 	// the appended elements are read from the source slice's own component
 	hs := h
 	if !tIsStr {
-		hs = vc.heapOf(st, vc.S.arrComp(c.Args[1].Type()))
+		hs = vc.heapOf(st, vc.S.arrComp(srcSliceType(c.Args[1])))
 	}
 	kk := vc.define(f.nm("app_k"), "Int", k)
 	total := vc.define(f.nm("app_n"), "Int", "(+ "+n+" "+kk+")")
@@ -174,7 +186,7 @@ func (f *Frame) copyOp(x *ssa.Call, c *ssa.CallCommon, at string, st *State) *Va
 		vc.oblige("frame", "copy:"+vc.P.srcText(x.Pos()), and(at, "(> "+n+" 0)"), goal, vc.P.line(x.Pos()), "copy writes destination", vc.con.Serves)
 	}
 	oldD := sel(h, "(s_arr "+d+")")
-	srcIn := sel(vc.heapOf(st, vc.S.arrComp(c.Args[1].Type())), "(s_arr "+s+")")
+	srcIn := sel(vc.heapOf(st, vc.S.arrComp(srcSliceType(c.Args[1]))), "(s_arr "+s+")")
 	inner := vc.declare(f.nm("copy_inner"), "(Array Int "+comp.VSort+")")
 	vc.ctr++
 	j := fmt.Sprintf("j!%d", vc.ctr)
